@@ -109,3 +109,20 @@ Example C03_driver_nonvacuous :
   fst (C03_drive C03_cs1) = fst (C03_drive C03_cs2) /\
   length (mout (fst (C03_drive C03_cs1))) = 11%nat.
 Proof. vm_compute. repeat split; reflexivity. Qed.
+
+(* ... and including the byte order mark: from a fresh machine (empty queue), whatever its discard_bom flag, as long as
+   neither chunking starts with a chunk that consists of U+FEFF alone (the first feed that sees input looks at the
+   first character of the stream only) *)
+Theorem C03_driver_chunking_independent_bom :
+  forall simd ent c1 sk fuel inj cs1 cs2 (m : mach hstate (list N)),
+  mq m = [] ->
+  all_nonempty cs1 -> all_nonempty cs2 -> cs1 <> [] -> cs2 <> [] -> concat cs1 = concat cs2 ->
+  hd [] cs1 <> [BOM] -> hd [] cs2 <> [BOM] ->
+  all_done (tl (snd (drive_flat html_flavour true html_table simd ent c1 sk fuel inj cs1 m []))) ->
+  all_done (tl (snd (drive_flat html_flavour true html_table simd ent c1 sk fuel inj cs2 m []))) ->
+  fst (drive_flat html_flavour true html_table simd ent c1 sk fuel inj cs1 m []) =
+  fst (drive_flat html_flavour true html_table simd ent c1 sk fuel inj cs2 m []) /\
+  hd SSuspend (snd (drive_flat html_flavour true html_table simd ent c1 sk fuel inj cs1 m [])) =
+  hd SSuspend (snd (drive_flat html_flavour true html_table simd ent c1 sk fuel inj cs2 m [])).
+Proof. exact html_drive_chunking_independent_bom. Qed.
+Print Assumptions C03_driver_chunking_independent_bom.
